@@ -1,3 +1,12 @@
+//! C12 (response keys) and, later, C10 (readers only read what the entrypoint fetches).
 fn main() {
-    vcore::inconclusive("runtime: not built yet");
+    let args = vcore::parse_args();
+    match args.property.as_str() {
+        "C12" => runtime::c12::run(&args),
+        "C10" => vcore::inconclusive(
+            "C10: the node-runtime driver (runtime/run_cases.mjs kind normalize_and_read, runtime::node) is ready; \
+             the case producer (project generator + conforming responses) is not built yet",
+        ),
+        other => vcore::inconclusive(&format!("runtime: unknown property {other}")),
+    }
 }
